@@ -224,7 +224,18 @@ func mapWorkload(e *env) {
 			case 4:
 				w.do("Map.Compare", func() { _ = m.Compare(m2); _ = types.Compare(m, other) })
 			case 5:
-				w.do("Map.Len/Keys/Values/Pairs", func() { _, _, _, _ = m.Len(), m.Keys(), m.Values(), m.Pairs() })
+				w.do("Map.Len/Keys/Values/Pairs", func() {
+					n := m.Len()
+					ks, vs, ps := m.Keys(), m.Values(), m.Pairs()
+					if len(ks) != n || len(vs) != n || len(ps) != 2*n {
+						panic("Map.Keys/Values/Pairs disagree with Len")
+					}
+					for _, xs := range [][]types.Value{ks, vs, ps} { // every element is read
+						for _, x := range xs {
+							_ = types.HashOf(x)
+						}
+					}
+				})
 			case 6:
 				w.do("Map.Range", func() {
 					for kk, v := range m.Range() {
@@ -268,6 +279,29 @@ func mapWorkload(e *env) {
 				})
 			case 14:
 				w.do("Map.Clear/Immutable/Kind", func() { _ = m.Clear(); _ = m.Immutable(); _ = m.Kind() })
+				// a mutable map is owned by one goroutine (this one): the whole interface once,
+				// next to the readers of the map it was derived from
+				w.do("mutableMap.*", func() {
+					d := m.Mutable()
+					d.Set(k, types.NewString("own"))
+					_, _, _, _ = d.Has(k), d.Get(k), d.Len(), d.Kind()
+					_, _, _ = d.Keys(), d.Values(), d.Pairs()
+					for kk, v := range d.Range() {
+						_, _ = kk, v
+					}
+					_, _, _ = d.Hash(), d.Interface(), d.Map()
+					_, _ = d.Equal(m), d.Compare(m)
+					_ = d.Mutable()
+					if b, err := d.MarshalJSON(); err == nil {
+						f := types.NewMap().Mutable()
+						_ = f.UnmarshalJSON(b)
+						g := types.NewMap() // a fresh immutable map, not yet shared
+						_ = g.UnmarshalJSON(b)
+						_ = g.Len()
+					}
+					d.Delete(k)
+					d.Clear()
+				})
 			case 15:
 				w.do("Value hash caches", func() {
 					for _, v := range m.Values() {
